@@ -39,6 +39,9 @@ type Batch[C any] struct {
 	// it is reported on stdout and in the evidence, and the exit status stays what
 	// the oracles say.
 	Desired []string
+	// Unwanted: counters of lost reach (worlds the tool refused although they are
+	// well-formed). A non-zero value prints a REACH-WARNING too; never a verdict.
+	Unwanted []string
 }
 
 // RunBatch executes the batch on all workers, folds results in index order,
@@ -150,6 +153,11 @@ func RunBatch[C any](b *Batch[C], start time.Time) *Report {
 		if rep.Stats.Counters[k] == 0 {
 			fmt.Printf("REACH-WARNING property=%s %q was never reached in this batch (see evidence notes)\n", b.Property, k)
 			rep.Stats.Note("reach warning: %q stayed at zero: the fault or state it counts never occurred in this batch; the oracles' verdict covers what did occur", k)
+		}
+	}
+	for _, k := range b.Unwanted {
+		if n := rep.Stats.Counters[k]; n > 0 {
+			fmt.Printf("REACH-WARNING property=%s %q = %d: that much of the workload was not explored (see evidence notes)\n", b.Property, k, n)
 		}
 	}
 	if len(rep.Violations) == 0 {
